@@ -476,3 +476,157 @@ Proof.
   split; [repeat constructor; simpl; intuition discriminate|].
   repeat split; vm_compute; reflexivity.
 Qed.
+
+(* ---- ONE PERIOD OF THE CODE WITH FILTER-RESTRICTED VARIABLES ------------------------------------------------------------- *)
+From LCM Require Import Model.StateSpace Spec.Layout Proofs.C17_StateSpace Proofs.Refine_StateSpace Proofs.C01_Sparse.
+(* rs / rc: the filter-restricted states / choices (Spec.Layout), dst, dch, cst, cch: the free discrete states, discrete    *)
+(* choices, continuous states, continuous choices.  The state-choice space holds the filter-passing combinations of the      *)
+(* restricted variables on ONE leading axis (C17's model of create_combination_grid / create_indexers_and_segments on the     *)
+(* filter mask: true_positions, segment ids, number of segments), the dense grids on the other axes.  The array lcm computes   *)
+(* for a period -- the regenerated u_and_f (whose scalar value function is the function representation with rank axis and     *)
+(* state indexer on the next period's table) product-mapped over the continuous choice grids, the regenerated compute_ccv,     *)
+(* the space map (jointly over the stored combinations, then over the dense grids), the regenerated no-shock reduction:        *)
+(* maximum over the dense discrete choice axes 1+|dst| .. and segment maximum over the stored combinations of every remaining   *)
+(* restricted state -- holds at position (s, ds, cs) the specification's value_at of the state whose restricted part is the     *)
+(* s-th remaining restricted-state combination.  A combination the filters reject is inadmissible in the specification (a      *)
+(* filter reads only filter-restricted variables: eval_fun_reads_only_reachable_variables), so dropping it changes no maximum.  *)
+Theorem C01_one_period_of_the_code_with_filters_is_the_specifications :
+  forall (m : model) (p : params) (t : nat) (F : list nat -> Q) (dst dch cst cch : list (string * grid))
+         (isr : string -> bool) (remaining : list (list nat)),
+  let rs := restricted_states m in let rc := restricted_choices m in
+  let mask := filter_mask m p t in let res := create_indexers_and_segments mask (length rs) in
+  let combos := true_positions mask in let fstates := feasible_states mask (length rs) in
+  let uf := uf_code_sparse m p t F rs rc dst dch cst cch isr remaining in
+  Permutation (rc ++ dch ++ cch) (choices m) -> NoDup (map fst (choices m)) ->
+  NoDup (map fst (rs ++ rc)) -> (rs ++ rc)%list <> [] ->
+  (forall x, In x (map fst (dst ++ cst ++ dch ++ cch)) -> is_restricted m x = false) ->
+  NoDup (map fst (states m)) -> grids_valid (states m) ->
+  (forall si ci ds dc cs cidx,
+     in_bounds (sizes rs) si -> in_bounds (sizes rc) ci -> in_bounds (sizes dst) ds -> in_bounds (sizes dch) dc ->
+     in_bounds (sizes cst) cs -> in_bounds (sizes cch) cidx ->
+     evaluates_at_ix m p F isr remaining (sp_env t rs rc dst dch cst cch si ci ds dc cs cidx)) ->
+  forall s ds cs, (s < num_segments_r res)%nat -> in_bounds (sizes dst) ds -> in_bounds (sizes cst) cs ->
+  veq (get VUndef (V_sparse rs rc dst dch cst cch uf combos (segment_ids_r res) (num_segments_r res)) (s :: ds ++ cs))
+      (value_at m p t false (fun idx => VFin (F idx)) (env_of_idx rs (nth s fstates []) ++ env_of_idx dst ds ++ env_of_idx cst cs)%list).
+Proof. exact period_of_the_code_with_filters_is_the_specifications. Qed.
+Print Assumptions C01_one_period_of_the_code_with_filters_is_the_specifications.
+
+Theorem C01_last_period_of_the_code_with_filters_is_the_specifications :
+  forall (m : model) (p : params) (t : nat) (vnext : list nat -> val) (dst dch cst cch : list (string * grid)),
+  let rs := restricted_states m in let rc := restricted_choices m in
+  let mask := filter_mask m p t in let res := create_indexers_and_segments mask (length rs) in
+  let combos := true_positions mask in let fstates := feasible_states mask (length rs) in
+  let uf := uf_code_sparse_last m p t rs rc dst dch cst cch in
+  Permutation (rc ++ dch ++ cch) (choices m) -> NoDup (map fst (choices m)) ->
+  NoDup (map fst (rs ++ rc)) -> (rs ++ rc)%list <> [] ->
+  (forall x, In x (map fst (dst ++ cst ++ dch ++ cch)) -> is_restricted m x = false) ->
+  (forall si ci ds dc cs cidx,
+     in_bounds (sizes rs) si -> in_bounds (sizes rc) ci -> in_bounds (sizes dst) ds -> in_bounds (sizes dch) dc ->
+     in_bounds (sizes cst) cs -> in_bounds (sizes cch) cidx ->
+     exists u, eval_fun (depth m) m p (sp_env t rs rc dst dch cst cch si ci ds dc cs cidx) "utility" = Some u) ->
+  forall s ds cs, (s < num_segments_r res)%nat -> in_bounds (sizes dst) ds -> in_bounds (sizes cst) cs ->
+  veq (get VUndef (V_sparse rs rc dst dch cst cch uf combos (segment_ids_r res) (num_segments_r res)) (s :: ds ++ cs))
+      (value_at m p t true vnext (env_of_idx rs (nth s fstates []) ++ env_of_idx dst ds ++ env_of_idx cst cs)%list).
+Proof. exact last_period_of_the_code_with_filters_is_the_specifications. Qed.
+Print Assumptions C01_last_period_of_the_code_with_filters_is_the_specifications.
+
+(* the reduction above with the choice axes exactly as the code passes them (none without a dense discrete choice) *)
+Theorem C01_sparse_reduction_with_the_codes_axes :
+  forall rs rc dst dch cst cch uf combos ids num,
+  (rs ++ rc)%list <> [] -> Forall (in_bounds (sizes (rs ++ rc))) combos ->
+  solve_discrete_problem_no_shocks (cc_sparse rs rc dst dch cst cch uf combos) (sparse_choice_axes dst dch) (Some (mkSeg ids num)) tt
+  = V_sparse rs rc dst dch cst cch uf combos ids num.
+Proof. exact V_sparse_with_the_codes_axes. Qed.
+Print Assumptions C01_sparse_reduction_with_the_codes_axes.
+
+(* non-vacuity: working (d = 1) is impossible in bad health (h = 0); the combination (h, d) = (0, 1) is not stored; the      *)
+(* hypotheses hold at all 60 points (decided by evaluates_at_ixb, sound); both sides computed at all six states               *)
+Definition sp_model : model :=
+  mkModel 3 [("h", GDisc 2); ("w", GLin 0 2 3)] [("d", GDisc 2); ("c", GLin 0 2 5)]
+    [mkUfun "utility" ["c"; "w"; "h"; "d"] (ESub (EAdd (EVar "c") (EMul (EVar "w") (EVar "h"))) (EMul (EConst (1#4)) (EVar "d"))) false;
+     mkUfun "next_w" ["w"; "c"; "d"] (EAdd (ESub (EVar "w") (EVar "c")) (EMul (EConst (1#2)) (EVar "d"))) false;
+     mkUfun "next_h" ["h"] (EConst 0) true;
+     mkUfun "health_filter" ["h"; "d"] (ELe (EVar "d") (EVar "h")) false;
+     mkUfun "budget_constraint" ["c"; "w"; "d"] (ELe (EVar "c") (EAdd (EVar "w") (EMul (EConst (1#2)) (EVar "d")))) false].
+Definition sp_table (idx : list nat) : Q := match idx with [a; b] => Qofnat a + (1 # 2) * Qofnat b | _ => 0 end.
+Example C01_period_with_filters_nonvacuous :
+  let rs := [("h", GDisc 2)] in let rc := [("d", GDisc 2)] in let cst := [("w", GLin 0 2 3)] in let cch := [("c", GLin 0 2 5)] in
+  let mask := filter_mask sp_model solve_params 0 in
+  let uf := uf_code_sparse sp_model solve_params 0 sp_table rs rc [] [] cst cch (is_restricted sp_model) [[0%nat]; [1%nat]] in
+  restricted_states sp_model = rs /\ restricted_choices sp_model = rc /\
+  true_positions mask = [[0; 0]; [1; 0]; [1; 1]]%nat /\
+  segment_ids_r (create_indexers_and_segments mask 1) = [0; 1; 1]%nat /\ num_segments_r (create_indexers_and_segments mask 1) = 2%nat /\
+  feasible_states mask 1 = [[0]; [1]]%nat /\
+  forallb (fun si => forallb (fun ci => forallb (fun cs => forallb (fun cidx =>
+     evaluates_at_ixb sp_model solve_params sp_table (is_restricted sp_model) [[0%nat]; [1%nat]]
+       (sp_env 0 rs rc [] [] cst cch si ci [] [] cs cidx)) (indices [5%nat])) (indices [3%nat])) (indices [2%nat])) (indices [2%nat]) = true /\
+  map (fun idx => vred (get VUndef (V_sparse rs rc [] [] cst cch uf (true_positions mask)
+                          (segment_ids_r (create_indexers_and_segments mask 1)) 2) idx))
+      [[0; 0]; [0; 1]; [0; 2]; [1; 0]; [1; 1]; [1; 2]]%nat
+  = [VFin (27 # 40); VFin (67 # 40); VFin (107 # 40); VFin (7 # 10); VFin (27 # 10); VFin (89 # 20)] /\
+  map (fun idx => vred (value_at sp_model solve_params 0 false (fun i => VFin (sp_table i))
+                          (env_of_idx rs [hd 0%nat idx] ++ env_of_idx [] [] ++ env_of_idx cst (tl idx))%list))
+      [[0; 0]; [0; 1]; [0; 2]; [1; 0]; [1; 1]; [1; 2]]%nat
+  = [VFin (27 # 40); VFin (67 # 40); VFin (107 # 40); VFin (7 # 10); VFin (27 # 10); VFin (89 # 20)].
+Proof. cbv zeta. repeat split; vm_compute; reflexivity. Qed.
+
+(* ---- ALL PERIODS WITH FILTER-RESTRICTED VARIABLES ------------------------------------------------------------------------ *)
+From LCM Require Import Proofs.C14_OnLayoutIx Proofs.C01_SparseSolve.
+(* code_solve_sparse (Proofs/C01_SparseSolve.v): the regenerated glue and driver with, for every period t, the state-choice   *)
+(* space, the segments and the state indexer of C17's model on period t's filter mask, the regenerated u_and_f of period t     *)
+(* reading the array of period t+1 through the state indexer OF PERIOD t+1 (function representation with rank axis; the        *)
+(* indexer of C14's capstone is that array: C14_indexer_of_the_capstone_is_the_state_space_indexer), the product maps, the      *)
+(* regenerated compute_ccv and the regenerated get_solve_discrete_problem on the model's variable_info with period t's          *)
+(* segments.  The Bellman equation of the specification holds for the returned arrays: in every period, at every remaining       *)
+(* restricted-state combination s and every grid point (ds, cs) of the free states, the entry is the specification's value_at    *)
+(* with the next array (read through the next period's remaining combinations) as next value function.                          *)
+(* Assumed of the model: the filter-restricted states are discrete and there is at least one; states and choices have            *)
+(* different names; no variable is called "__sparse__"; no auxiliary variables.                                                 *)
+Theorem C01_lcm_solve_with_filters_satisfies_the_bellman_equation :
+  forall (m : model) (p : params) (n : nat) (dch cch : list (string * grid)),
+  let rs := restricted_states m in let rc := restricted_choices m in
+  let dst := free_discrete_states m in let cst := free_continuous_states m in
+  Permutation (rc ++ dch ++ cch) (choices m) -> NoDup (map fst (choices m)) -> NoDup (map fst (rs ++ rc)) -> rs <> [] ->
+  (forall x, In x (map fst (dst ++ cst ++ dch ++ cch)) -> is_restricted m x = false) ->
+  NoDup (map fst (states m)) -> grids_valid (states m) ->
+  (forall sg, In sg (states m) -> is_restricted m (fst sg) = true -> is_cont (snd sg) = false) ->
+  NoDup (map fst (rc ++ dst ++ dch ++ cst ++ cch)) -> ~ In "__sparse__"%string (map fst (rc ++ dch ++ cch)) ->
+  forall t s ds cs, (t < n)%nat ->
+  ((S t < n)%nat -> forall si ci ds' dc cs' cidx,
+     in_bounds (sizes rs) si -> in_bounds (sizes rc) ci -> in_bounds (sizes dst) ds' -> in_bounds (sizes dch) dc ->
+     in_bounds (sizes cst) cs' -> in_bounds (sizes cch) cidx ->
+     evaluates_at_ix m p (next_table_sparse m p n dch cch t) (is_restricted m) (rem_at m p (S t))
+                     (sp_env t rs rc dst dch cst cch si ci ds' dc cs' cidx)) ->
+  (S t = n -> forall si ci ds' dc cs' cidx,
+     in_bounds (sizes rs) si -> in_bounds (sizes rc) ci -> in_bounds (sizes dst) ds' -> in_bounds (sizes dch) dc ->
+     in_bounds (sizes cst) cs' -> in_bounds (sizes cch) cidx ->
+     exists u, eval_fun (depth m) m p (sp_env t rs rc dst dch cst cch si ci ds' dc cs' cidx) "utility" = Some u) ->
+  (s < length (rem_at m p t))%nat -> in_bounds (sizes dst) ds -> in_bounds (sizes cst) cs ->
+  veq (get VUndef (nth t (code_solve_sparse m p n dch cch) (scalar VUndef)) (s :: ds ++ cs))
+      (value_at m p t (t =? n - 1)%nat (fun idx => VFin (next_table_sparse m p n dch cch t idx))
+                (env_of_idx rs (nth s (rem_at m p t) []) ++ env_of_idx dst ds ++ env_of_idx cst cs)%list).
+Proof.
+  intros m p n dch cch rs rc dst cst H1 H2 H3 H4 H5 H6 H7 H8 H9 H10 t s ds cs.
+  exact (code_solve_sparse_satisfies_the_bellman_equation m p n dch cch H1 H2 H3 H4 H5 H6 H7 H8 H9 H10 t s ds cs).
+Qed.
+Print Assumptions C01_lcm_solve_with_filters_satisfies_the_bellman_equation.
+
+(* non-vacuity: the filter model over three periods; the arrays of the instantiated code ARE the specification's solve_spec in   *)
+(* the documented layout (computed), the hypotheses of the theorem hold in every period (decided)                                *)
+Example C01_solve_with_filters_nonvacuous :
+  let cch := [("c", GLin 0 2 5)] in
+  let rs := restricted_states sp_model in let rc := restricted_choices sp_model in
+  let dst := free_discrete_states sp_model in let cst := free_continuous_states sp_model in
+  map (fun a => (shape a, map vred (data a))) (code_solve_sparse sp_model solve_params 3 [] cch)
+  = map (fun a => (shape a, map vred (data a))) (solve_layout sp_model solve_params) /\
+  map (fun a => map vred (data a)) (code_solve_sparse sp_model solve_params 3 [] cch)
+  = [[VFin (513 # 1280); VFin (7371 # 3200); VFin (26433 # 6400); VFin (1201 # 1280); VFin (23223 # 6400); VFin (40117 # 6400)];
+     [VFin (27 # 160); VFin (279 # 160); VFin (63 # 20); VFin (43 # 80); VFin (453 # 160); VFin (811 # 160)];
+     [VFin 0; VFin 1; VFin 2; VFin (1 # 4); VFin (9 # 4); VFin 4]] /\
+  forallb (fun t => forallb (fun si => forallb (fun ci => forallb (fun cs => forallb (fun cidx =>
+     if (S t =? 3)%nat
+     then is_some (eval_fun (depth sp_model) sp_model solve_params (sp_env t rs rc dst [] cst cch si ci [] [] cs cidx) "utility")
+     else evaluates_at_ixb sp_model solve_params (next_table_sparse sp_model solve_params 3 [] cch t) (is_restricted sp_model)
+            (rem_at sp_model solve_params (S t)) (sp_env t rs rc dst [] cst cch si ci [] [] cs cidx))
+     (indices [5%nat])) (indices [3%nat])) (indices [2%nat])) (indices [2%nat])) [0; 1; 2]%nat = true.
+Proof. cbv zeta. repeat split; vm_compute; reflexivity. Qed.
